@@ -66,8 +66,20 @@ def run(repo, rep, tier):
                     f"rebuilds {sorted(rebuilt)}: an instance-level wrapper that is not stripped is pickled with a bound method of "
                     f"the original; one that is not rebuilt leaves the clone without fill.numpy/plot", stmt="wrapper attribute sets")
     # __getstate__ works on a copy of __dict__
-    okc = any(isinstance(n, ast.Assign) and isinstance(n.value, ast.Call) and call_name(n.value) == "dict" and
-              ast.unparse(n.value.args[0]) == f"{sn}.__dict__" for n in walk_local_stmt(gs.node) if isinstance(n, ast.Assign) and n.value.args)
+    okc = False
+    for n in walk_local_stmt(gs.node):
+        if isinstance(n, ast.Assign) and isinstance(n.value, ast.Call):
+            v = n.value
+            if call_name(v) == "dict" and v.args and ast.unparse(v.args[0]) == f"{sn}.__dict__":
+                okc = True
+            if isinstance(v.func, ast.Attribute) and v.func.attr == "copy" and ast.unparse(v.func.value) == f"{sn}.__dict__":
+                okc = True
+        if isinstance(n, ast.Assign) and isinstance(n.value, (ast.Dict, ast.DictComp)) and f"{sn}.__dict__" in ast.unparse(n.value):
+            okc = True
+    # nothing may be deleted from / stored into self.__dict__ itself
+    for n in walk_local_stmt(gs.node):
+        if isinstance(n, ast.Assign) and isinstance(n.value, ast.Attribute) and ast.unparse(n.value) == f"{sn}.__dict__":
+            okc = False
     r1.ob(okc, "__getstate__ copies __dict__ before stripping")
     if not okc:
         rep.finding("R11.1", gs, gs.node, "__getstate__ does not work on a copy of __dict__: pickling strips fill/plot from the original",
@@ -141,6 +153,22 @@ def run(repo, rep, tier):
             # the class and the name travel in the reduce tuple
             tup = r0.ast.value.elts[1] if len(r0.ast.value.elts) > 1 else None
             args = [ast.unparse(x) for x in tup.elts] if isinstance(tup, ast.Tuple) else []
+            # positional agreement: a deserializer parameter named like a function attribute (__code__, __defaults__, ...)
+            # must receive that very attribute of self.expr
+            if isinstance(tup, ast.Tuple):
+                for pname, argx in zip(f.params, tup.elts):
+                    if pname.startswith("__") and pname.endswith("__"):
+                        attrs = {a.attr for a in ast.walk(argx) if isinstance(a, ast.Attribute)}
+                        good = pname in attrs
+                        r2.ob(good, f"__reduce__ ({kind}): parameter {pname} of {callee} <- {ast.unparse(argx)[:40]}")
+                        if not good:
+                            rep.finding("R11.2", red, argx, f"the reduce tuple passes `{ast.unparse(argx)}` for the parameter `{pname}` of "
+                                        f"{callee}: the unpickled function is rebuilt with another attribute than the one it is named "
+                                        f"after (e.g. lost default arguments)", stmt=f"reduce arg for {pname}")
+                if len(tup.elts) != len(f.params):
+                    r2.ob(False)
+                    rep.finding("R11.2", red, tup, f"the reduce tuple has {len(tup.elts)} elements but {callee} takes {len(f.params)} parameters",
+                                stmt=f"reduce arity {callee}")
             sn2 = red.params[0]
             ok = ok and f"{sn2}.__class__" in args and f"{sn2}.name" in args
             if not ok:
